@@ -1,2 +1,27 @@
-// Package c07 holds the scenario family of property C07.
+// Package c07 decides C07 (depacketizers resynchronise after loss,
+// duplication and reordering): for each of the 12 stateful RTP decoders the
+// real encoder feeds the real decoder through a simulated link whose fault
+// schedule (an explicit list of drop / dup / duplate / swap / dropframe
+// faults) is the thing searched.
+//
+// Frames and units per decoder (frame = input of one Encode call):
+//
+//	h264        frame = access unit; units = NAL units (types 1..23, no 00 00 pairs)      one Decode return == the AU
+//	h265        frame = access unit; units = NAL units (types 0..40, 2-byte header)        one Decode return == the AU
+//	av1         frame = temporal unit; units = OBUs without size field                      one Decode return == the TU
+//	vp8         frame = one VP8 frame (opaque bytes)                                        one return == the frame
+//	vp9         frame = one VP9 frame with a parseable key / non-key uncompressed header   one return == the frame
+//	fragmented  frame = one MPEG-4 video frame or LATM AudioMuxElement                      one return == the frame
+//	mpeg1video  frame = picture: [sequence hdr, GOP hdr,] picture hdr + slices (start-code delimited); one return == the bytes
+//	mjpeg       frame = baseline JPEG (DQT, SOF0, SOS, scan, EOI); one return, compared by dimensions, sampling type,
+//	            quantisation tables, entropy-coded data (the decoder rebuilds the headers)
+//	klv         frame = KLV unit of 1..3 KLV triplets; one return == the unit
+//	mpeg4audio  frame = 1..8 access units given to one Encode call; the decoder returns AUs packet by packet:
+//	            the AUs of the call must appear exactly once, contiguously, in the concatenated output
+//	mpeg1audio  frame = 1..6 MPEG-1 layer II/III frames of one Encode call; compared like mpeg4audio
+//	ac3         frame = 1..4 AC-3 syncframes of one Encode call; compared like mpeg4audio
+//
+// Unit 0 of every frame carries (frame, unit) in its first payload bytes, so
+// no two frames of a stream are equal and "returned exactly once" is
+// decidable from the bytes alone.
 package c07
